@@ -40,6 +40,13 @@ def _lb(b, blk, x, depth=0):
     if x[0] == 'call' and x[1].endswith('::max') and len(x[2]) == 2 and depth < 4:
         best = max(best, _lb(b, blk, x[2][0], depth + 1), _lb(b, blk, x[2][1], depth + 1))
     nx = nosite(x)
+    if x[0] == 'call' and x[1].rsplit('::', 1)[-1] == 'len' and len(x[2]) == 1:
+        # `!c.is_empty()` is `c.len() >= 1`
+        rc = nosite(core(x[2][0]))
+        for t_, pol_, g_ in atoms_at(b, blk):
+            c_ = core(t_)
+            if pol_ is False and c_[0] == 'call' and c_[1].rsplit('::', 1)[-1] == 'is_empty' and len(c_[2]) == 1 and nosite(core(c_[2][0])) == rc:
+                best = max(best, 1)
     # an integer `match x { 0 => .., _ => <here> }`: the guard excludes 0 (or selects values >= 1)
     for g in guards_at(b, blk):
         if g.dty != 'bool' and g.t[0] != 'discr' and nosite(core(g.t)) == nx:
